@@ -137,3 +137,57 @@ Definition snippet_eqb (m : option snippet) (frag : list cp) (hl : list range) :
   match m with Some sn => cps_eqb (sn_fragment sn) frag && ranges_eqb (sn_hl sn) hl | None => false end.
 Definition ohtml_eqb (m : option (list cp)) (html : list cp) : bool :=
   match m with Some h => cps_eqb h html | None => false end.
+
+Lemma fragment_length_unless_f9 :
+  forall (score : Type) szero sadd spos scmp lower_str text ts terms max sn,
+  Forall (span_ok text) ts -> from_sorted ts ->
+  snippet_of score szero sadd spos scmp lower_str terms max text ts = Some sn ->
+  f9_class text ts (sn_fragment sn) max = false ->
+  N.of_nat (length (sn_fragment sn)) <= max.
+Proof.
+  intros score szero sadd spos scmp lower_str text ts terms max sn Hsp Hfs Hsn Hcls.
+  destruct (snippet_of_ok score szero sadd spos scmp lower_str text ts terms max Hsp Hfs) as (sn' & E & Hp).
+  rewrite Hsn in E. injection E as <-.
+  destruct Hp as [->|(start & stop & Hpt & Hlen & _)]; [cbn; lia|].
+  pose proof (chars_le_bytes (sn_fragment sn)) as Hc.
+  destruct Hpt as (a & c & Etext & -> & ->).
+  destruct Hlen as [Hle|(tk & Hin & E1 & E2 & Hgt)]; [lia|].
+  exfalso. unfold f9_class in Hcls. apply Bool.not_true_iff_false in Hcls. apply Hcls.
+  apply existsb_exists. exists tk. split; [exact Hin|]. apply andb_true_iff. split; [apply N.ltb_lt; exact Hgt|].
+  assert (Hs : slice_cp text (t_from tk) (t_to tk) = Some (sn_fragment sn)).
+  { apply slice_cp_spec. exists a, c. rewrite <- E1, <- E2. auto. }
+  rewrite Hs. apply cps_eqb_eq. reflexivity.
+Qed.
+
+Lemma snippet_ranges_unless_f21 :
+  forall (score : Type) szero sadd spos scmp lower_str text ts terms max prefix postfix sn,
+  Forall (span_ok text) ts -> from_sorted ts -> f21_class ts = false ->
+  snippet_of score szero sadd spos scmp lower_str terms max text ts = Some sn ->
+  ranges_disjoint 0 (collapse (sn_hl sn)) /\
+  Forall (fun r => boundary (sn_fragment sn) (fst r) /\ boundary (sn_fragment sn) (snd r)) (collapse (sn_hl sn)) /\
+  (forall p, covered p (collapse (sn_hl sn)) <-> covered p (sn_hl sn)) /\
+  to_html prefix postfix sn <> None.
+Proof.
+  intros score szero sadd spos scmp lower_str text ts terms max prefix postfix sn Hsp Hfs Hc Hsn.
+  apply (snippet_ranges_ok score szero sadd spos scmp lower_str text ts terms max prefix postfix sn Hsp Hfs); [|exact Hsn].
+  apply sorted_byb_spec. unfold f21_class in Hc. apply negb_false_iff in Hc. exact Hc.
+Qed.
+
+Lemma highlighted_disjoint_unless_f10 :
+  forall (score : Type) szero sadd spos scmp lower_str text ts terms max sn,
+  f10_class ts = false ->
+  snippet_of score szero sadd spos scmp lower_str terms max text ts = Some sn ->
+  ranges_disjoint 0 (sn_hl sn).
+Proof.
+  intros score szero sadd spos scmp lower_str text ts terms max sn Hc Hsn.
+  apply (raw_disjoint_from_search score szero sadd spos scmp lower_str text ts terms max sn); [|exact Hsn].
+  apply disjoint_fromb_spec. unfold f10_class in Hc. apply negb_false_iff in Hc. exact Hc.
+Qed.
+
+Lemma slice_is_byte_slice : forall text from to b, points_at text from to b ->
+  from <= to /\ to <= blen text /\ boundary text from /\ boundary text to /\
+  firstn (N.to_nat (to - from)) (skipn (N.to_nat from) (encode text)) = encode b.
+Proof.
+  intros text from to b H. destruct (points_at_facts text from to b H) as (A & B & C & D).
+  repeat split; try assumption. apply points_at_bytes. exact H.
+Qed.
